@@ -111,7 +111,8 @@ EXPANDED_TIES = ("RxModel.GenTie.Subject", "RxModel.GenTie.SubjectThreads", "RxM
                  "RxModel.GenTie.BehaviorThreads", "RxModel.GenTie.Subscription", "RxModel.GenTie.GroupBy", "RxModel.GenTie.MergeAll",
                  "RxModel.GenTie.MergeAllThreads") + tuple(
     f"RxModel.GenTie.{w}{m}{t}" for w in ("", "Wiring") for m in ("Delay", "ObserveOn") for t in ("", "Threads")) + (
-    "RxModel.GenTie.Debounce", "RxModel.GenTie.Throttle", "RxModel.GenTie.WiringDebounce", "RxModel.GenTie.WiringThrottle")
+    "RxModel.GenTie.Debounce", "RxModel.GenTie.Throttle", "RxModel.GenTie.WiringDebounce", "RxModel.GenTie.WiringThrottle",
+    "RxModel.GenTie.Scheduler")
 
 
 def expanded_source():
